@@ -133,7 +133,17 @@ def client_cases(rng, thorough):
 
 def cases(tier, rng):
     thorough = tier == "thorough"
-    return server_cases(rng, thorough) + client_cases(rng, thorough)
+    return server_cases(rng, thorough) + client_cases(rng, thorough) + starttls_cases()
+
+
+def starttls_cases():
+    """The StartTLS upgrade with a real TLS client of the scenario's own: the hello after the 101 (as the stock client sends it), in the same
+    transport read as the upgrade request, and in the same read as both requests (implementation only: real crypto/tls on both sides)."""
+    cs = []
+    for mode in ("separate", "coalesced", "coalesced-all"):
+        line = "c06tls " + mode
+        cs.append({"line": line, "key": line, "model": False, "tags": {"src": "starttls-" + mode, "expect": "ok", "side": "server", "n": 3}})
+    return cs
 
 
 def oracle(case, impl):
@@ -142,6 +152,12 @@ def oracle(case, impl):
     if not p or p[0] in ("panic", "died", "timeout", "harness-error"):
         return [("crash;site=" + (p[1] if len(p) > 1 else "?"), "the handshake crashed the process on: " + case["line"][:200])]
     out = []
+    if case["line"].startswith("c06tls"):
+        if p[:2] != ["hs", "ok"] or p[3] != "1" or p[5] != "ok":
+            if case["line"].endswith("separate"):
+                return [("wellformed-refused;kind=starttls", "a StartTLS client that sends its hello after the 101 got no working TLS session: " + impl)]
+            return [("segmentation-changes-outcome;starttls", "the same octets as a working StartTLS upgrade, with the TLS hello in the same transport read as the request(s), give no working session: %s -> %s" % (case["line"], impl))]
+        return []
     if p[0] == "same":
         if p[1] != "1":
             out.append(("segmentation-dependent", "the outcome depends on how the byte stream was cut into transport reads: " + case["line"][:160]))
